@@ -348,8 +348,17 @@ def gen_spec(rng, app_id='vapp', n_models=None, with_meta=True, with_rel=True, o
         if with_meta and len(plain) >= 2:
             if rng.random() < 0.3:
                 m['unique_together'] = [rng.sample(plain, 2)]
+                if rng.random() < 0.4:
+                    # a second entry, in whatever order (lists of entries are ordered, and need not be sorted)
+                    e = rng.sample(plain, 2)
+                    if e not in m['unique_together']:
+                        m['unique_together'].insert(rng.randint(0, 1), e)
             if rng.random() < 0.2:
                 m['index_together'] = [rng.sample(plain, 2)]
+                if rng.random() < 0.4:
+                    e = rng.sample(plain, 2)
+                    if e not in m['index_together']:
+                        m['index_together'].insert(rng.randint(0, 1), e)
             if rng.random() < 0.25:
                 m['indexes'] = [{'name': '%s_ix%d' % (mn.lower(), rng.randint(1, 2)), 'fields': rng.sample(plain, rng.randint(1, 2))}]
         models.append(m)
